@@ -113,6 +113,26 @@ var properties = map[string]*propSpec{
 			{Check: "TestC08_Compose", Class: "nontrivial", Denominator: "split:checked", Min: 0.15},
 		},
 	},
+	"C09": {
+		Title: "Filter logic is Boolean algebra over members; comparisons obey their dualities",
+		Checks: []checkSpec{
+			{Test: "TestC09_Algebra", Quick: 15000, Thorough: 250000, Rapid: true},
+		},
+		Assumptions: assume("relational oracle over the library's own atoms (what an atom selects is C10/C01's business); member identity is recovered from pairwise-distinct member values"),
+		Floors: []floor{
+			{Check: "TestC09_Algebra", Class: "nontrivial", Min: 0.25},
+		},
+	},
+	"C10": {
+		Title: "Comparisons are type-strict and numeric by value, whatever the number decoding",
+		Checks: []checkSpec{
+			{Test: "TestC10_Compare", Quick: 20000, Thorough: 400000, Rapid: true},
+		},
+		Assumptions: assume(specAssumption, "when two paths are compared with ==, numbers are spelled the one way Go's shortest float formatting spells them (as the property stipulates)"),
+		Floors: []floor{
+			{Check: "TestC10_Compare", Class: "nontrivial", Min: 0.15},
+		},
+	},
 	"C11": {
 		Title: "Index and slice arithmetic is exact and total for every start/end/step/length",
 		Checks: []checkSpec{
